@@ -32,6 +32,8 @@ pub struct Ctx {
     pub digest: u64,
     pub probes: BTreeMap<&'static str, u64>,
     pub sigs: BTreeSet<u64>,
+    /// named coverage sets (e.g. decode-table indices seen)
+    pub cover: BTreeMap<&'static str, BTreeSet<u64>>,
     pub faults: BTreeMap<String, u64>,
     pub violation: Option<Violation>,
     pub steps: u64,
@@ -88,6 +90,10 @@ impl Ctx {
             }
         }
         self.sigs.insert(h);
+    }
+    #[inline]
+    pub fn cover(&mut self, name: &'static str, x: u64) {
+        self.cover.entry(name).or_default().insert(x);
     }
     pub fn fault(&mut self, name: &str, n: u64) {
         if n > 0 {
@@ -184,6 +190,10 @@ pub trait Family {
     fn components() -> (Vec<&'static str>, Vec<&'static str>);
     /// Probes that must be non-zero in a thorough run (reach requirements).
     fn required_probes(_tier: Tier) -> Vec<&'static str> {
+        vec![]
+    }
+    /// Named coverage sets with the minimum size a run of this tier must reach.
+    fn required_cover(_tier: Tier) -> Vec<(&'static str, usize)> {
         vec![]
     }
     fn runs(tier: Tier) -> u64;
